@@ -359,6 +359,17 @@ pub fn diff_pool(quick: bool, seed: u64) -> Vec<Tree> {
             }
         }
     }
+    // three and four variables at one level (a derivative can collapse to a lone variable whose index must be re-based)
+    let (a, x, y, z) = (v("a"), v("x"), v("y"), v("z"));
+    for &k1 in &[o.mul, o.add, o.sub, o.div] {
+        for &k2 in &[o.mul, o.add, o.div] {
+            pool.push(Tree::bin(k2, Tree::bin(k1, a.clone(), x.clone()), y.clone()));
+            pool.push(Tree::bin(k1, x.clone(), Tree::bin(k2, y.clone(), z.clone())));
+            pool.push(Tree::bin(k2, Tree::bin(k1, Tree::bin(o.mul, a.clone(), x.clone()), y.clone()), z.clone()));
+            pool.push(Tree::bin(k1, Tree::bin(o.mul, a.clone(), x.clone()), Tree::bin(k2, y.clone(), z.clone())));
+        }
+    }
+    pool.push(Tree::bin(o.mul, Tree::bin(o.mul, Tree::bin(o.mul, v("b"), a.clone()), z.clone()), x.clone()));
     // classic test expressions
     pool.push(Tree::bin(o.div, Tree::un(k("sin"), v("x")), Tree::bin(o.pow, v("x"), l("2"))));
     pool.push(Tree::bin(o.add, Tree::bin(o.mul, v("x"), v("y")), Tree::un(k("ln"), Tree::bin(o.mul, v("x"), v("y")))));
@@ -743,6 +754,133 @@ pub fn part_derived_roundtrip(args: &Args) -> Part {
     }))
 }
 
+/// C11 with DERIVED replacements: constants that still declare variables (results of differentiation or of the
+/// neutral-element shortcuts). Value must be the original with the variable bound to the constant; the variable
+/// list must be the sorted union of the untouched variables and the replacement's declared variables.
+pub fn part_subs_derived(args: &Args) -> Part {
+    let tab = default_float_table(true);
+    table::set_table(&tab);
+    let o = ops();
+    let exprs: Vec<Tree> = vec![
+        Tree::bin(o.add, Tree::bin(o.mul, l("2"), v("z")), v("x")),
+        Tree::bin(o.mul, v("z"), v("y")),
+        Tree::bin(o.add, Tree::un(k("sin"), v("z")), v("x")),
+        Tree::bin(o.div, v("z"), Tree::bin(o.add, v("x"), l("1"))),
+        Tree::bin(o.pow, v("z"), l("2")),
+        Tree::bin(o.sub, v("a"), Tree::bin(o.mul, v("z"), v("z"))),
+        v("z"),
+    ];
+    // (how the replacement is made, its constant value, its declared variables)
+    let repls: Vec<(&'static str, i64, Vec<&'static str>)> = vec![
+        ("d(3*u)/du", 3, vec!["u"]),
+        ("u*0", 0, vec!["u"]),
+        ("d2(x*y)/dx2", 0, vec!["x", "y"]),
+        ("d(u+w)/du", 1, vec!["u", "w"]),
+        ("d(5*b)/db", 5, vec!["b"]),
+        ("(u*0)+1", 1, vec!["u"]),
+    ];
+    let items: Vec<(usize, usize)> = (0..exprs.len()).flat_map(|i| (0..repls.len()).map(move |j| (i, j))).collect();
+    let _ = std::panic::take_hook();
+    std::panic::set_hook(Box::new(|_| {}));
+    let tabc = tab.clone();
+    let ex = exprs.clone();
+    let rp = repls.clone();
+    let (out, wall) = par_calc(args, &tab, true, &items, &move |it: &(usize, usize), _i, out: &mut CalcOut| {
+        let (ei, ri) = *it;
+        let e = &ex[ei];
+        let (how, cval, rvars) = &rp[ri];
+        let text = render(e, &Style::default());
+        out.stats.programs += 1;
+        out.stats.note_text(11, &format!("{text} z:={how}"));
+        // reference
+        let mut sigma = BTreeMap::new();
+        sigma.insert("z".to_string(), Tree::lit(&cval.to_string()));
+        fn subst(t: &Tree, s: &BTreeMap<String, Tree>) -> Tree {
+            match t {
+                Tree::Var(n) => s.get(n).cloned().unwrap_or_else(|| t.clone()),
+                Tree::Un(kk, a) => Tree::un(*kk, subst(a, s)),
+                Tree::Paren(a) => subst(a, s),
+                Tree::Bin(kk, a, c) | Tree::Call(kk, a, c) => Tree::bin(*kk, subst(a, s), subst(c, s)),
+                other => other.clone(),
+            }
+        }
+        let reference = subst(e, &sigma);
+        let mut ref_names: Vec<String> = e.var_names().into_iter().filter(|n| n != "z").chain(rvars.iter().map(|s| s.to_string())).collect();
+        ref_names.sort();
+        ref_names.dedup();
+        for form in ["flat", "deep"] {
+            let (paths, _) = explore(16, || {
+                catch_unwind(AssertUnwindSafe(|| -> exmex::ExResult<(Id, Vec<String>)> {
+                    let mk_deep = || -> exmex::ExResult<Deep<Sym, SymOps>> {
+                        Ok(match *how {
+                            "d(3*u)/du" => Deep::<Sym, SymOps>::parse("3*u")?.partial(0)?,
+                            "u*0" => (Deep::<Sym, SymOps>::parse("u")? * Deep::<Sym, SymOps>::parse("0")?)?,
+                            "d2(x*y)/dx2" => Deep::<Sym, SymOps>::parse("x*y")?.partial_nth(0, 2)?,
+                            "d(u+w)/du" => Deep::<Sym, SymOps>::parse("u+w")?.partial(0)?,
+                            "d(5*b)/db" => Deep::<Sym, SymOps>::parse("5*b")?.partial(0)?,
+                            _ => ((Deep::<Sym, SymOps>::parse("u")? * Deep::<Sym, SymOps>::parse("0")?)? + Deep::<Sym, SymOps>::parse("1")?)?,
+                        })
+                    };
+                    if form == "deep" {
+                        let d = Deep::<Sym, SymOps>::parse(&text)?;
+                        let mut sub = |n: &str| if n == "z" { mk_deep().ok() } else { None };
+                        let r = d.subs(&mut sub)?;
+                        let names = r.var_names().to_vec();
+                        Ok((r.eval(&vals(&names))?.0, names))
+                    } else {
+                        let f = Flat::<Sym, SymOps>::parse(&text)?;
+                        let mut sub = |n: &str| if n == "z" { mk_deep().ok().and_then(|d| Flat::<Sym, SymOps>::from_deepex(d).ok()) } else { None };
+                        let r = f.subs(&mut sub)?;
+                        let names = r.var_names().to_vec();
+                        Ok((r.eval(&vals(&names))?.0, names))
+                    }
+                }))
+                .map_err(panic_msg)
+            });
+            out.paths += paths.len() as u64;
+            for p in paths {
+                match p.result {
+                    Err(m) => push(out, mk_finding("panic", form, &tabc, &format!("{text} with z := {how}"), Some(&reference), String::new(), String::new(), m)),
+                    Ok(Err(e2)) => push(out, mk_finding("rejected", form, &tabc, &format!("{text} with z := {how}"), Some(&reference), String::new(), String::new(), e2.msg().to_string())),
+                    Ok(Ok((val, names))) => {
+                        if names != ref_names {
+                            push(out, mk_finding("varnames", form, &tabc, &format!("{text} with z := {how}"), Some(&reference), format!("{names:?}"), format!("{ref_names:?}"), "variable list is not the sorted union of untouched and replacement variables".into()));
+                        }
+                        let rf = reference.to_sym().0;
+                        out.stats.vcs += 1;
+                        if val != rf {
+                            let (vd, model) = decide_nra(val, rf, &[], true);
+                            match vd {
+                                Verdict::Unsat => {}
+                                Verdict::Sat => {
+                                    let mut f = mk_finding("value", form, &tabc, &format!("{text} with z := {how}"), Some(&reference), show_term(val), show_term(rf), "substituted expression differs from the original with z bound to the constant".into());
+                                    f.model = model;
+                                    push(out, f);
+                                }
+                                Verdict::Inconclusive => {
+                                    if out.findings.len() < 12 {
+                                        out.findings.push(mk_finding("inconclusive", form, &tabc, &text, Some(&reference), String::new(), String::new(), String::new()));
+                                    }
+                                }
+                            }
+                        }
+                    }
+                }
+            }
+        }
+        if out.samples.len() < 2 {
+            out.samples.push(json!({"expression": text, "replacement_of_z": how, "constant": cval, "declared_variables": rvars}));
+        }
+    });
+    let _ = std::panic::take_hook();
+    to_part("derived-replacements", out, wall, json!({
+        "expressions": exprs.iter().map(|t| render(t, &Style::default())).collect::<Vec<_>>(),
+        "replacements_of_z": repls.iter().map(|r| r.0).collect::<Vec<_>>(),
+        "check": "value == original with z bound to the constant (solver, NRA); var_names == sorted union of the untouched variables and the replacement's declared variables; FlatEx::subs and DeepEx::subs",
+        "table": "default float table transplanted to T = Sym (the replacements are produced by the real partial / overloaded operators)",
+    }))
+}
+
 pub fn c05(args: &Args) -> i32 {
     let quick = args.tier_quick();
     let tab = default_float_table(true);
@@ -795,7 +933,7 @@ pub fn c05(args: &Args) -> i32 {
         }
     }
     let pool2: Vec<Tree> = if quick {
-        pool.iter().filter(|t| t.size() <= 5 && simple(t)).step_by(3).cloned().collect()
+        pool.iter().enumerate().filter(|(i, t)| t.size() <= 7 && simple(t) && (t.var_names().len() >= 3 || i % 3 == 0) && (t.size() <= 5 || t.var_names().len() >= 3)).map(|(_, t)| t.clone()).collect()
     } else {
         pool.iter().filter(|t| t.size() <= 6).step_by(2).cloned().collect()
     };
@@ -977,6 +1115,10 @@ pub fn c09(args: &Args) -> i32 {
         v("x"),
         Tree::bin(o.sub, Tree::un(k("cos"), Tree::bin(o.mul, v("x"), v("y"))), Tree::bin(o.pow, v("z"), l("2"))),
         Tree::bin(o.mul, Tree::un(k("sqrt"), v("x")), Tree::un(k("tanh"), v("y"))),
+        Tree::bin(o.mul, Tree::bin(o.mul, v("a"), v("x")), v("y")),
+        Tree::bin(o.add, Tree::bin(o.mul, v("a"), v("x")), Tree::bin(o.mul, v("y"), v("z"))),
+        Tree::bin(o.mul, Tree::bin(o.mul, Tree::bin(o.mul, v("b"), v("a")), v("z")), v("x")),
+        Tree::bin(o.sub, Tree::bin(o.div, v("x"), v("a")), v("y")),
     ];
     let max_len = if quick { 3 } else { 4 };
     let _ = std::panic::take_hook();
@@ -1203,6 +1345,9 @@ pub fn c10(args: &Args) -> i32 {
         Tree::bin(o.pow, v("x"), l("2")),
         Tree::un(k("-"), v("w")),
         Tree::bin(o.mul, l("0.5"), l("2")),
+        Tree::bin(o.add, Tree::bin(o.add, v("a"), v("b")), v("c")),
+        Tree::bin(o.mul, Tree::bin(o.mul, v("c"), v("d")), v("f")),
+        Tree::bin(o.sub, Tree::bin(o.mul, v("b"), v("c")), v("g")),
     ];
     let texts: Vec<String> = pool.iter().map(|t| render(t, &Style::default())).collect();
     let unary_names: Vec<&'static str> = if quick { vec!["sin", "-", "exp", "abs"] } else { vec!["sin", "-", "exp", "abs", "cos", "ln", "sqrt", "+", "tanh", "floor"] };
